@@ -124,6 +124,7 @@ type c12Obs struct {
 	versions []c12Ans
 	readPid  bool
 	readCh0  bool
+	ch0      c12Read // what the read of the children file before the signal returned
 	kill     *int
 	killRet  bool
 	pathPids []int
@@ -189,7 +190,6 @@ func c12RunReload(base string, id int, sc *c12Script) *c12Obs {
 		b, _ := strconv.Atoi(m[2])
 		obs.pathPids = append(obs.pathPids, a, b)
 	}
-	realPath := ""
 
 	checkFile := func(name string) (fs.FileInfo, error) {
 		mu.Lock()
@@ -228,17 +228,12 @@ func c12RunReload(base string, id int, sc *c12Script) *c12Obs {
 		obs.readCh0 = true
 		notePath(name)
 		if sc.realFile {
-			realPath = name
-			if !sc.ch0.err {
-				if err := os.MkdirAll(filepath.Dir(name), 0o755); err != nil {
-					panic(err)
-				}
-				if err := os.WriteFile(name, []byte(sc.ch0.content), 0o644); err != nil {
-					panic(err)
-				}
-			}
-			return os.ReadFile(name)
+			// the file was created before Reload started (see below): whatever is there now is the answer
+			data, err := os.ReadFile(name)
+			obs.ch0 = c12Read{content: string(data), err: err != nil}
+			return data, err
 		}
+		obs.ch0 = sc.ch0
 		if sc.ch0.err {
 			return nil, &fs.PathError{Op: "open", Path: name, Err: syscall.ESRCH}
 		}
@@ -265,6 +260,15 @@ func c12RunReload(base string, id int, sc *c12Script) *c12Obs {
 		}
 		return []byte(a.content), nil
 	}
+	realMaster := filepath.Join(base, "proc", strconv.Itoa(sc.masterPid), "task", strconv.Itoa(sc.masterPid), "children")
+	if sc.realFile && !sc.ch0.err {
+		if err := os.MkdirAll(filepath.Dir(realMaster), 0o755); err != nil {
+			panic(err)
+		}
+		if err := os.WriteFile(realMaster, []byte(sc.ch0.content), 0o644); err != nil {
+			panic(err)
+		}
+	}
 	kill := func(pid int) error {
 		mu.Lock()
 		defer mu.Unlock()
@@ -275,10 +279,11 @@ func c12RunReload(base string, id int, sc *c12Script) *c12Obs {
 		if !obs.killRet {
 			return syscall.ESRCH
 		}
-		if sc.realFile && realPath != "" {
+		if sc.realFile {
+			// the master reacts to the signal at once: new workers (or the process is gone)
 			if sc.realNewRead.err {
-				_ = os.Remove(realPath)
-			} else if err := os.WriteFile(realPath, []byte(sc.realNewRead.content), 0o644); err != nil {
+				_ = os.Remove(realMaster)
+			} else if err := os.WriteFile(realMaster, []byte(sc.realNewRead.content), 0o644); err != nil {
 				panic(err)
 			}
 		}
@@ -420,7 +425,11 @@ func c12ReloadTerm(sc *c12Script, o *c12Obs) string {
 	if o.kill != nil {
 		killRet = o.killRet
 	}
-	env := vu.App("Env", vu.List(st), c12ReadTerm(sc.pid), c12ReadTerm(sc.ch0), vu.Bool(killRet), vu.List(ch), vu.List(vs))
+	ch0 := sc.ch0
+	if o.readCh0 {
+		ch0 = o.ch0
+	}
+	env := vu.App("Env", vu.List(st), c12ReadTerm(sc.pid), c12ReadTerm(ch0), vu.Bool(killRet), vu.List(ch), vu.List(vs))
 	return vu.App("CReload", vu.Z(int64(sc.v)), env, vu.Z(int64(sc.simOld)), vu.Z(int64(c12SimNew(sc, o))), c12OptZ(sc.intended),
 		vu.Bool(o.ok), c12OptZ(o.kill), vu.List(pp), vu.Nat(len(o.stat)), vu.Bool(o.readPid), vu.Bool(o.readCh0),
 		vu.Nat(o.reloads), vu.Nat(o.errors))
@@ -454,7 +463,7 @@ func c12ReloadHuman(sc *c12Script, o *c12Obs) map[string]any {
 		"part": "reload", "class": sc.class, "expected_version": sc.v,
 		"scripted_nginx": map[string]any{"version_before": sc.simOld, "version_master_runs_at_return": c12SimNew(sc, o), "version_on_disk": sc.loadVer, "accepts_config": sc.hupValid,
 			"master_pid": sc.masterPid, "hup_would_be_delivered": sc.killOK},
-		"pid_file_stat_answers(0=ok,1=missing,2=error)": o.stat, "pid_file": rd(sc.pid), "children_before": rd(sc.ch0),
+		"pid_file_stat_answers(0=ok,1=missing,2=error)": o.stat, "pid_file": rd(sc.pid), "children_before_scripted": rd(sc.ch0), "children_before_served": rd(o.ch0),
 		"children_polls_served": ch, "version_answers_served": vs, "verify_timeout_ms": sc.timeout.Milliseconds(),
 		"real_children_file": sc.realFile,
 		"observed": map[string]any{"reload_returned_nil": o.ok, "error": o.errText, "signalled_pid": o.kill,
